@@ -54,6 +54,10 @@ class C09(framework.PropertyCheck):
                 if op == 'mod' and args[1] == 0:
                     args[1] = 7
                 yield {'k': k, 'op': op, 'args': args}
+            elif k == 'exp' and rng.random() < 0.2:
+                # exponents 0 and 1 at every width, far beyond what a double holds
+                base = rng.choice([1, -1]) * (rng.getrandbits(rng.choice([64, 300, 1030, 1100, 2100])) | 1)
+                yield {'k': k, 'op': '**', 'args': [base, rng.choice([0, 0, 1, 2])]}
             elif k == 'exp':
                 yield {'k': k, 'op': '**', 'args': [rng.choice([2, 3, 10, -3, -2, 7, self.big(rng) % 1000, -(self.big(rng) % 50)]), rng.randint(0, 90)]}
             elif k == 'cmp':
